@@ -331,3 +331,18 @@ Proof.
       replace (Z.to_nat q) with (S (Z.to_nat (q - 1))) in * by lia.
       replace (Z.to_nat (q - 1)) with (S (Z.to_nat (q - 1 - 1))) in * by lia. apply IH. exact Hin.
 Qed.
+
+(** ** the bound of the random values (F14): a bound the generator cannot use is an error before
+    anything is created; a run that succeeds with -fill had a bound in [0, 2^31) *)
+Lemma generate_checked_rejects F existing fill mx m xff layout pl now :
+  gen_max_ok fill mx = false -> generate_checked F existing fill mx m xff layout pl now = (StErr, None).
+Proof. intros H. unfold generate_checked. now rewrite H. Qed.
+
+Lemma generate_checked_ok_bound F existing mx m xff layout pl now :
+  fst (generate_checked F existing true mx m xff layout pl now) = StOk -> 0 <= mx < 2^31.
+Proof.
+  unfold generate_checked, gen_max_ok. cbn [negb orb].
+  destruct ((0 <=? mx) && (mx <? 2 ^ 31)) eqn:E; [|cbn; discriminate].
+  intros _. apply andb_true_iff in E. destruct E as [E1 E2].
+  apply Z.leb_le in E1. apply Z.ltb_lt in E2. lia.
+Qed.
